@@ -133,6 +133,8 @@ func c01Opts(r *RNG, quick bool) GenOpts {
 		TryDefer: r.Chance(45), Pipes: r.Chance(40), Sets: r.Chance(40)}
 }
 
+var c01TraceShrunk int
+
 func runC01(e *Env) {
 	e.R.Rule = "programs from the structured generator over the core grammar (statement forms x expression forms, size budget 40-300 nodes " +
 		"quick / up to 600 thorough; per program, with probability 40-45 % each: error()/try() with handler chains and defer inside functions, " +
@@ -174,7 +176,8 @@ func runC01(e *Env) {
 			c01FunCheck(e, it.p, it.src)
 			// the Lean VM model on the Lean-compiled bytecode against the real run: outcome, and the
 			// dispatch trace instruction for instruction (c01trace.go)
-			if _, d := c01TraceCompare(it.go_, it.tr, vreps[i]); d != "" && d != "skip" && d != "outcome" {
+			if _, d := c01TraceCompare(it.go_, it.tr, vreps[i]); d != "" && d != "skip" && d != "outcome" && c01TraceShrunk < 3 {
+				c01TraceShrunk++ // shrinking re-runs both machines per candidate: only the first three differences of a run
 				// shrink to a small program that still takes different steps (replay quality)
 				small := Shrink(it.p, func(q *N) bool { return c01TraceDiffers(e, q) })
 				ssrc := Src(small)
